@@ -174,9 +174,12 @@ func runC16(c *mon.Ctx) {
 				}
 			case "logoutreq":
 				endpoint = sp.IdentityProviderSLOURL
-				if r.IntN(2) == 0 {
+				switch r.IntN(3) {
+				case 0:
 					doc, err = sp.BuildLogoutRequestDocument("user<&>\"'", "_s")
-				} else {
+				case 1:
+					doc = customDoc(r)
+				default:
 					doc, err = sp.BuildLogoutRequestDocumentNoSig("user", "_s")
 				}
 				if err == nil {
@@ -184,9 +187,12 @@ func runC16(c *mon.Ctx) {
 				}
 			case "logoutresp":
 				endpoint = sp.IdentityProviderSLOURL
-				if r.IntN(2) == 0 {
+				switch r.IntN(3) {
+				case 0:
 					doc, err = sp.BuildLogoutResponseDocument("urn:oasis:names:tc:SAML:2.0:status:Success", "_req")
-				} else {
+				case 1:
+					doc = customDoc(r)
+				default:
 					doc, err = sp.BuildLogoutResponseDocumentNoSig("urn:oasis:names:tc:SAML:2.0:status:Success", "_req")
 				}
 				if err == nil {
